@@ -143,6 +143,17 @@ def iter_jobs(prop, tier):
 
 
 def multi_jobs(prop, tier):
+    jobs = _multi_jobs(prop, tier)
+    # the same histories on the release MIR (debug assertions compiled out: a fault that a debug build stops with an assertion
+    # runs on silently there, seed C06-i), one size smaller
+    extra = []
+    for j in jobs:
+        if j['N'] <= (2 if tier == 'quick' else 3):
+            k = dict(j); k['cfg'] = 'release'; extra.append(k)
+    return jobs + extra
+
+
+def _multi_jobs(prop, tier):
     jobs = []
     nmax = 3 if tier == 'quick' else 4
     for N in range(1, nmax + 1):
